@@ -29,7 +29,7 @@ TraceNext ==
           ELSE /\ nscn' = nscn
                /\ viol' = viol
                     \cup (IF StepOK(e, st, e.post) THEN {}
-                          ELSE {Sig((IF e.ok THEN "step:" ELSE "failed-step-changed-state:") \o e.ev, StepClass(e), e)})
+                          ELSE {Sig((IF e.ok THEN "step:" ELSE "failed-step-changed-state:") \o e.ev \o StepFault(e, st, e.post), StepClass(e), e)})
                     \cup {Sig(n, StepClass(e), e) : n \in BrokenInvariants(e.post) \ BrokenInvariants(st)}
                /\ div' = div \cup
                     (LET r == MResult(st, e.ev, e.args) IN
